@@ -50,7 +50,7 @@ def gen_cases(tier, seed):
             if k > 0:
                 cases.append(common.mk(gen.content_for_bits(mode, k), tag='near-capacity', version=v, error=lv, boost_error=False))
     # multi segment / eci / random
-    cases += common.random_cases(rng, 800 if tier == 'quick' else 15000, heavy=True)
+    cases += common.random_cases(rng, 800 if tier == 'quick' else 60000, heavy=True)
     for _ in range(100 if tier == 'quick' else 1500):
         # symbol_count only: the version= path truncates chunks (known finding of C08, sa-version-count-underestimate)
         kw = {'symbol_count': rng.randint(2, 5)}
